@@ -34,9 +34,9 @@ SUPERS = {
 }
 # name: (cluster cutoffs, jump cutoff, spectator chemistries)
 CRYSTALS = {
-    "fcc": ((0.8, 1.01), 0.8, ()),
+    "fcc": ((0.8, 1.01, 1.45), 0.8, ()),          # 1.45: pairs out to the 4th shell = two lattice vectors along a jump
     "bcc": ((0.9, 1.01), 0.9, ()),
-    "sc": ((1.01, 1.45), 1.01, ()),
+    "sc": ((1.01, 1.45, 2.01), 1.01, ()),         # 2.01: pairs out to two lattice vectors
     "hcp": ((1.01,), 1.01, ()),
     "b2": ((0.9, 1.01), 1.01, (1,)),
     # TWO mobile chemistries (both sublattices of B2 carry occupation variables; species 0 jumps): clusters mix
@@ -97,7 +97,16 @@ def get_expansions(name, cutoff, order):
     return _CE[key]
 
 
-def draw_values(rnd, n, style):
+def draw_values(rnd, n, style, energies=False):
+    if style == "hardcore":
+        # a hard-core exclusion written the usual way: one or two cluster energies are +inf (configurations that
+        # switch them on have infinite energy; Metropolis never accepts them). Only for cluster energies, and only
+        # in worlds without a jump network (there +inf is the compiled sampler's mark for a forbidden transition).
+        v = np.array([rnd.randrange(-32, 33) / 16.0 for _ in range(n)])
+        if energies and n >= 3:
+            for k in rnd.sample(range(n - 1), rnd.choice((1, 2))):
+                v[k] = np.inf
+        return v
     if style == "dyadic":
         return np.array([rnd.randrange(-32, 33) / 16.0 for _ in range(n)])
     if style == "coarse":
@@ -107,6 +116,12 @@ def draw_values(rnd, n, style):
         # powers of two from 2^-16 to 2^16 with either sign: sums stay exact (well inside 53 bits), but anything
         # with an absolute tolerance ("treat |dE| < 1e-8 as zero", isclose) sees values on both sides of it
         return np.array([rnd.choice((-1.0, 1.0)) * 2.0 ** rnd.randrange(-16, 17) for _ in range(n)])
+    if style in ("tiny", "huge"):
+        # the whole model in other units (joule instead of eV, or the reverse): dyadic values times 2^-40 or 2^40;
+        # scaling by a power of two keeps every sum exact, but "is this value zero?" tests with an absolute
+        # tolerance, and tolerances sized for O(1) energies, see a different world
+        f = 2.0 ** (-40 if style == "tiny" else 40)
+        return np.array([rnd.randrange(-32, 33) / 16.0 * f for _ in range(n)])
     if style == "integer":
         # an integer array (what a user typing whole numbers gets): arithmetic is exact, halves must not truncate
         return np.array([rnd.randrange(-5, 6) for _ in range(n)], dtype=int)
@@ -139,7 +154,7 @@ class World(object):
                 else:
                     merged.append(a)
             self.ce = merged + (vce if self.vac else [])
-        self.evalues = draw_values(rnd, len(self.ce) + 1, w["values"])
+        self.evalues = draw_values(rnd, len(self.ce) + 1, w["values"], energies=True)
         self.ts = (tsv if self.vac else ts) if w["ts"] else []
         self.tsvalues = draw_values(rnd, len(self.ts), w["values"])
         if w["kra"] == "list":
@@ -163,9 +178,10 @@ class World(object):
         jumping = [i for i in range(self.nsites) if sup.mobileindices[i % sup.Nmobile][0] == self.chem]
         self.jumping = jumping
         self.vacsite = jumping[w["vacsite"] % len(jumping)] if self.vac else None
-        self.scale = float(np.sum(np.abs(self.evalues)) * max(1, self.nsites) +
+        self.scale = float(np.sum(np.abs(self.evalues[np.isfinite(self.evalues)])) * max(1, self.nsites) +
                            np.sum(np.abs(self.tsvalues)) + np.sum(np.abs(self.kra)) + 1.0)
-        self.exact = w["values"] in ("dyadic", "coarse", "integer", "wide")
+        self.unit = {"tiny": 2.0 ** -40, "huge": 2.0 ** 40}.get(w["values"], 1.0)
+        self.exact = w["values"] in ("dyadic", "coarse", "integer", "wide", "tiny", "huge", "hardcore")
 
     def sampler(self, vacsite=None, decoy=False, private=False, own=None):
         """A brand-new sampler through the public constructors. decoy=True: a different sampler (other
@@ -226,6 +242,10 @@ class World(object):
         return cluster.MonteCarloSampler(sup, socc, self.ce, ev)
 
     def close(self, a, b):
+        if a != a or b != b:
+            # NaN arises legitimately only as (+inf) - (+inf) in a trial that switches one infinite interaction
+            # off and another on; two computations of the same quantity must then both give NaN
+            return a != a and b != b
         if self.exact:
             return a == b
         return abs(a - b) <= 1e-9 * self.scale
@@ -722,7 +742,7 @@ class Run(RunBase):
             if self.mocc[i] == 1:
                 self.mocc[i] = 0
         E1 = None if self.quiet else mc.E()
-        if self.prop == "C33" and announced is not None:
+        if self.prop == "C33" and announced is not None and not (np.isinf(E0) or np.isinf(E1)):
             self.checks += 1
             if not self.W.close(E1 - E0, announced):
                 self.fail("trial-vs-diff", "deltaE_trial({},{}) announced {!r} but E changed by {!r}".format(
@@ -819,7 +839,7 @@ class Run(RunBase):
             mc.update(a, b)
             E1 = mc.E()
             self.checks += 1
-            if not self.W.close(E1 - E0, d):
+            if not (np.isinf(E0) or np.isinf(E1)) and not self.W.close(E1 - E0, d):
                 self.fail("trial-vs-diff", "sweep: deltaE_trial({},{}) announced {!r} but E changed by {!r} (from {})".format(
                     a, b, d, E1 - E0, occ_to_str(self.mocc)))
             mc.update(b, a)
@@ -1009,7 +1029,7 @@ class Run(RunBase):
         L = min(len(op["o"]), len(op["u"]), len(op["kTlogu"]))
         oc = np.array([int(x) % Nun for x in op["o"][:L]], dtype=np.int64)
         uc = np.array([int(x) % Nocc for x in op["u"][:L]], dtype=np.int64)
-        kt = np.array([float(x) for x in op["kTlogu"][:L]], dtype=np.float64)
+        kt = np.array([float(x) for x in op["kTlogu"][:L]], dtype=np.float64) * self.W.unit   # in the world's energy unit
         # (a) a compiled copy driven move by move, (b) the reference driven by the Metropolis rule
         step = jit.copy()
         ref = self.mc
@@ -1072,7 +1092,7 @@ class Run(RunBase):
             oc = g.integers(0, Nun, size=L, dtype=np.int64)
             uc = g.integers(0, Nocc, size=L, dtype=np.int64)
         before = self.jit_snapshot(jit)
-        jit.MCmoves(oc, uc, np.full(L, -1e300))
+        jit.MCmoves(oc, uc, np.full(L, -np.inf))       # dE < -inf never holds (not even for dE = -inf or NaN)
         self.checks += 1
         if self.jit_snapshot(jit) != before:
             self.fail("mcmoves-vs-reference", "a batch of {} moves that must all be rejected changed the compiled sampler".format(L))
@@ -1137,6 +1157,16 @@ class Run(RunBase):
             if len(fin) < len(jQ):
                 self.probes["forbidden-marked-inf"] += 1
         self.check_other(where)
+        if self.jit_other is not None and self.w["jumps"]:
+            # what transitions() handed out for one compiled sampler must not change when ANOTHER compiled sampler
+            # (a copy, or a second one from the same reference) is queried: copies are independent objects
+            Q1 = jit.transitions()[1]
+            keep = [float(x) for x in Q1]
+            self.jit_other.transitions()
+            self.checks += 1
+            if [float(x) for x in Q1] != keep and not all(a != a and b != b or a == b for a, b in zip([float(x) for x in Q1], keep)):
+                self.fail("copy-alias", "{}: the barriers one compiled sampler reported changed when another compiled "
+                          "sampler was queried".format(where))
         self.note_state(self.w["class"], occ_to_str(self.mocc), "jit")
 
     # ------------------------------------------------------------------ quiescent sweep
@@ -1177,6 +1207,8 @@ class Engine(object):
             s = rng.choice(sorted(SUPERS))
             cutoff = rng.choice(CRYSTALS[c][0])
             order = rng.choice((1, 2, 3, 3, 3, 4))
+            if cutoff > 1.2 and c in ("fcc", "sc"):
+                order = min(order, 2)        # long-range pairs only (cluster counts explode otherwise)
             S = np.array(SUPERS[s])
             nsites = abs(int(round(np.linalg.det(S)))) * NSITES.get(c, 1)
             if nsites > (54 if self.tier == "thorough" else 36):
@@ -1190,8 +1222,10 @@ class Engine(object):
                 continue   # a cell whose only site is the vacancy holds no atoms: no sampler to speak of
             w = {"crystal": c, "super": s, "cutoff": cutoff, "order": order, "vac": vac,
                  "vacsite": rng.randrange(64), "jumps": jumps, "kra": rng.choice(("scalar", "list", "zero")),
-                 "ts": jumps and ts_drawn, "values": rng.choice(("dyadic", "dyadic", "normal", "coarse", "integer", "wide")),
+                 "ts": jumps and ts_drawn, "values": rng.choice(("dyadic", "dyadic", "normal", "coarse", "integer", "wide", "tiny", "huge")),
                  "vseed": rng.randrange(1 << 30), "sseed": rng.randrange(1 << 30)}
+            if not jumps and rng.random() < 0.12:
+                w["values"] = "hardcore"
             w["shared_sup"] = rng.choice((False, False, False, False, False, "values", "jumpnet", "expansion"))
             w["quiet"] = rng.choice((0, 0, 0.5, 0.9))
             w["merge"] = rng.random() < 0.25
